@@ -412,6 +412,9 @@ void UtilContext::print16(const char *token)
 
     printf(" %04x", num);
 
+    // Stop at the top of the address space instead of wrapping to 0.
+    if (start > 0xffffffff - 2) { break; }
+
     start = start + 2;
   }
 
@@ -475,6 +478,9 @@ void UtilContext::print32(const char *token)
     }
 
     printf(" %08x", num);
+
+    // Stop at the top of the address space instead of wrapping to 0.
+    if (start > 0xffffffff - 4) { break; }
 
     start = start + 4;
   }
